@@ -21,6 +21,18 @@ In `rxBraceCalls` a value is the quoted text of a string constant, `name X` for 
 `template '…'` for a string built around a non-constant part, and `<dynamic>` for any other expression.
 (`BraceParse.stop_width` and the junos comment delimiter are tied by `Ccp.C08.stop_width_is_four` and the theorems of
 `Ccp.Props.C08`.)
+
+**Scan sets as revised.**  The lists below contain only what identifies the regex / separator a scanner was written
+for: regex-engine calls (`re.*`, methods of compiled patterns, the `re_*` helpers of the package) with the pattern in
+*canonical form* — canonical verbose form and no VERBOSE flag for a pattern compiled with `re.VERBOSE`; group names
+removed (`(?P<n>…)` is written `(…)`, `(?P=n)` by number); redundant escapes removed (`\:` is `:`); a pattern handed to a
+same-file helper as an argument, or built from a local name that ranges over a constant collection, reported once per
+value; a search that cannot fail (`.*`) not reported — with the flags and, for `re.sub`, the replacement; and the
+separator arguments of `str.split / rsplit / partition / rpartition / join / replace / strip / splitlines`.  The literal
+tests (`"lit" in …`, comparisons with string literals and their subscripts, `str.startswith / endswith / find …`) that
+earlier versions of these lists contained are now the INFORMATIONAL definitions `Gen.rx…Info`: no theorem is about
+them, so reading a regex group into a local, hoisting a `.split()`, merging branches or renaming a group does not break
+an obligation.  Where the text above speaks of such a test as part of a scan set, read: part of `…Info`.
 -/
 namespace Ccp.RxC08
 
@@ -39,7 +51,7 @@ theorem regexes_as_modelled :
        ("nested_expr content", "<dynamic>"),
        ("parse_string 0", "template '{<dynamic>}'")] ∧
     Gen.rxBraceUnpack =
-      [("==", ";", "[-1]")] ∧
+      [] ∧
     Gen.ppPrintables =
       "0123456789abcdefghijklmnopqrstuvwxyzABCDEFGHIJKLMNOPQRSTUVWXYZ!\"#$%&'()*+,-./:;<=>?@[\\]^_`{|}~" ∧
     Gen.ppDefaultWhiteChars =
